@@ -178,7 +178,7 @@ func c14Seeds() [][]byte {
 		refconv.PeiOctets("4901542032375180", true),
 		nssai, upu,
 		refconv.LadnIndicationEncode([][]byte{[]byte("internet"), []byte("ims")}),
-		{0x80, 0x80, 0x80, 0x80}, // UE security capability
+		{0x80, 0x80, 0x80, 0x80},                   // UE security capability
 		{0x03, 'i', 'm', 's', 0x03, 'o', 'r', 'g'}, // DNN labels
 	}
 }
